@@ -55,7 +55,8 @@ class Report:
         self.rule = ""
         self.exhaustive = False
         self.nonprop_differences = 0
-        self.findings = [f for f in load_known_findings() if f.get("property") == prop and f.get("status") == "known"]
+        self.findings = [f for f in load_known_findings()
+                         if (f.get("property") == prop or prop in f.get("properties", [])) and f.get("status") == "known"]
 
     # ---- coverage bookkeeping
     def tlc(self, name, res):
